@@ -14,6 +14,10 @@ CHECKS = {
   "runtime monitoring of the real Sync loop under forced schedules: guarded yield points block the loop between its own steps while the harness commits application transactions; read-back oracle at logical quiescence",
   "Every yield point of the loop (11 points: before/between/after each of Lightning Stream's own transactions, env.Info() calls and Store) x 5 change kinds x pending remote snapshot none/no-news(empty LS transaction)/news x earlier commit x native/shadow is enumerated with the real Sync loop running; plus injections ordered after the merge, a family where LoadOnce itself captures the earlier change (the following SendOnce is empty), empty values, header padding and seeded multi-injection schedules. At each idle state (logical clock) and again after a following remote merge every committed key must read back as committed.",
   "Schedule points are yield points between LMDB transactions/bucket calls (transactions are atomic). Staged remote versions cannot win. Poll intervals 1 ms; verdicts use loop iterations, the wall clock is only a watchdog (inconclusive).", "DESIGN.md section 6 C03"),
+ "C05": ("fault_enumeration",
+  "online conservation monitor inside the instrumented bucket (invariant checked atomically with every Store/Delete) while real sync loops are crashed at yield points (runtime.Goexit), restarted, cleaned and subjected to scripted storage faults",
+  "Enumerated crash points (13 yield points x occurrence) x LMDB kept/emptied x own-snapshot download held back/failing x application writing before/at start-up x second instance; the real cleaner invoked with a virtual clock at every yield point and inside every (failing) Store attempt while a stale instance's only snapshot is merged; fleets with real background cleaners and List/Load/Store/Delete fault bursts below the retry budget. After every bucket mutation the join over the newest snapshots must not lose or lower any key; no upload before the own newest snapshot was merged.",
+  "Crash = loop goroutine ends at a yield point and Sync's deferred cancel stops the helpers; LMDB transactions and bucket operations are atomic; sweeper off.", "DESIGN.md section 6 C05"),
  "C07": ("exploration",
   "runtime differential monitoring of the real codec against two reference decoders over generated and re-encoded inputs",
   "Differential runtime monitor: every generated snapshot (boundary lengths, buffer growth steps, 1000s of entries, multi-MB values, single entries beyond the growth step) is written by the real encoder and read back by the real hand-written decoder, the generated gogo codec and an independent strict wire parser; re-encodings (permuted fields, unknown fields of all wire types at every level, duplicated scalars, split Meta) must be read identically by all three. Held on the executions explored, not a proof.",
